@@ -347,6 +347,13 @@ Http::One::Server::writeControlMsgAndCall(HttpReply *rep, AsyncCall::Pointer &ca
 
     // apply selected clientReplyContext::buildReplyHeader() mods
     // it is not clear what headers are required for control messages
+
+    // as in buildReplyHeader(): without a login=PASS/PASSTHRU peer, the
+    // Proxy-Authenticate of the next hop is not meant for our client
+    const auto peerLogin = http->request ? http->request->peer_login : nullptr;
+    if (!peerLogin || (strcmp(peerLogin, "PASS") != 0 && strcmp(peerLogin, "PASSTHRU") != 0))
+        rep->header.delById(Http::HdrType::PROXY_AUTHENTICATE);
+
     rep->header.removeHopByHopEntries();
     // paranoid: ContentLengthInterpreter has cleaned non-generated replies
     rep->removeIrrelevantContentLength();
